@@ -213,26 +213,24 @@ func (a *Agent) ServeConn(c net.Conn) {
 			a.pipelined.Add(1)
 		}
 		stop := false
+		var out []byte // raw bytes to write (already framed) when not a plain frame
+		frame := true
 		switch act.Kind {
 		case Honest:
 			ev.Reply = reply
-			writeFrame(c, reply, act.Fragment)
 		case Failure:
 			ev.Reply = []byte{5}
-			writeFrame(c, ev.Reply, false)
 		case Garbage:
 			ev.Reply = []byte{0xde, 0xad, 0xbe, 0xef, 0x01, 0x02, 0xff, 0xff, 0xff, 0xff}
-			writeFrame(c, ev.Reply, false)
 		case Custom:
 			ev.Reply = act.Reply
-			writeFrame(c, act.Reply, act.Fragment)
 		case Oversized:
-			c.Write([]byte{0x01, 0x00, 0x00, 0x01, 12, 0, 0, 0, 0})
+			// a declared length of 16 MiB + 1; the stream is out of sync afterwards, so the connection ends
+			frame, out, stop = false, []byte{0x01, 0x00, 0x00, 0x01, 12, 0, 0, 0, 0}, true
 		case Truncated:
-			c.Write([]byte{0x00, 0x00, 0x00, 0x40, 12, 0, 0})
-			stop = true
+			frame, out, stop = false, []byte{0x00, 0x00, 0x00, 0x40, 12, 0, 0}, true
 		case Close:
-			stop = true
+			frame, stop = false, true
 		case Stall:
 			ev.T1 = time.Now().UnixNano()
 			a.mu.Lock()
@@ -241,10 +239,16 @@ func (a *Agent) ServeConn(c net.Conn) {
 			io.Copy(io.Discard, br)
 			return
 		}
+		// the event is logged before the reply leaves, so that whoever receives the reply finds it in the log
 		ev.T1 = time.Now().UnixNano()
 		a.mu.Lock()
 		a.events = append(a.events, ev)
 		a.mu.Unlock()
+		if frame {
+			writeFrame(c, ev.Reply, act.Fragment)
+		} else if out != nil {
+			c.Write(out)
+		}
 		if stop {
 			return
 		}
